@@ -111,7 +111,7 @@ fn scratch_root() -> String {
 /// Does this strace accept the injection specification (system call and errno names)?
 fn inject_spec_ok(call: &str, errno: &str) -> bool {
     std::process::Command::new("/usr/bin/strace")
-        .args(["-f", "-qq", "-o", "/dev/null", "-e", &format!("trace={call}"), "-e", &format!("inject={call}:error={errno}:when=999999"), "/bin/true"])
+        .args(["-f", "-qq", "-o", "/dev/null", "-e", &format!("trace={call}"), "-e", &format!("inject={call}:error={errno}:when=65535"), "/bin/true"])
         .stdin(std::process::Stdio::null())
         .stdout(std::process::Stdio::null())
         .stderr(std::process::Stdio::null())
@@ -809,7 +809,7 @@ fn cmd_run(o: &Opts) -> i32 {
         let strace_ok = std::path::Path::new("/usr/bin/strace").is_file()
             && std::env::var("VERIF_NO_STRACE").is_err()
             && std::process::Command::new("/usr/bin/strace")
-                .args(["-f", "-qq", "-o", "/dev/null", "-e", "trace=write", "-e", "inject=write:error=ENOSPC:when=999999", "/bin/true"])
+                .args(["-f", "-qq", "-o", "/dev/null", "-e", "trace=write", "-e", "inject=write:error=ENOSPC:when=65535", "/bin/true"])
                 .stdin(std::process::Stdio::null())
                 .stdout(std::process::Stdio::null())
                 .stderr(std::process::Stdio::null())
